@@ -29,8 +29,16 @@ build_coq() {
 # $1 = variant name (plain|tracing|subscriber|hooked), rest = cargo args / env
 build_harness() {
   local variant=${1:-plain}
-  cd $V/harness
-  [ -f Cargo.lock ] || cp /repo/Cargo.lock Cargo.lock
+  local repo=${VERIF_REPO:-/repo}
+  if [ "$repo" != "/repo" ]; then
+    # a copy of the repository (e.g. a snapshot for a background run): same harness, other path dependency
+    rm -rf $C/harness-alt && mkdir -p $C/harness-alt && cp -r $V/harness/src $V/harness/Cargo.toml $V/harness/Cargo.lock $V/harness/.cargo $C/harness-alt/
+    sed -i "s|path = \"/repo\"|path = \"$repo\"|" $C/harness-alt/Cargo.toml
+    cd $C/harness-alt
+  else
+    cd $V/harness
+  fi
+  [ -f Cargo.lock ] || cp $repo/Cargo.lock Cargo.lock
   local feat="" tdir=$C/target rf=""
   case $variant in
     plain) ;;
